@@ -240,7 +240,7 @@ func TestVerifWsListeners(t *testing.T) {
 					}
 				}
 				for {
-					to := 250 * time.Millisecond
+					to := 150 * time.Millisecond
 					if first {
 						to = 30 * time.Second
 					}
@@ -263,7 +263,7 @@ func TestVerifWsListeners(t *testing.T) {
 				}
 				firstBlk := c.blocks
 				for {
-					to := 250 * time.Millisecond
+					to := 150 * time.Millisecond
 					if firstBlk {
 						to = 30 * time.Second
 					}
